@@ -2092,4 +2092,188 @@ theorem step_step (ord) (m : Sys) (sp : SpecSt) (rev : REvents) (sends : List Se
             (fun h => by rw [hk] at h; cases h)
           exact ⟨sp, fun tail => rfl, h1, h2, h3⟩
 
+
+/-! ### induction over the history, the end of the case, the theorem -/
+
+theorem step_ok (ord) (m : Sys) (sp : SpecSt) (op : Op) (rest : List Op)
+    (hR : Rel m sp) (hI : MInv m) (hL : Live ord m (op :: rest)) (hok : opOk ord m op rest = true) :
+    StepOk ord m sp op rest := by
+  cases op with
+  | psend n => exact step_psend ord m sp n rest hR hI hL
+  | send T data waits sends => exact step_send ord m sp T data waits sends rest hR hI hL hok
+  | recv T waits => exact step_recv ord m sp T waits rest hR hI hL hok
+  | enq data => exact step_enq ord m sp data rest hR hI hL
+  | step rev sends => exact step_step ord m sp rev sends rest hR hI hL hok
+  | pre x => exact step_pre ord m sp x rest hR hI hL hok
+  | kill kind pread reset sends => exact step_kill ord m sp kind pread reset sends rest hR hI hL hok
+  | after o b => exact step_after ord m sp o b rest hR hI hL
+  | destroy => exact step_destroy ord m sp rest hR hI hL
+
+theorem modelOps_cons (m : Sys) (op : Op) (rest : List Op) :
+    modelOps m (op :: rest) = ((modelOps (sysStep m op).1 rest).1, (sysStep m op).2 ++ (modelOps (sysStep m op).1 rest).2) := by
+  simp only [modelOps]
+
+theorem run_ok (ord) : ∀ (hist : List Op) (m : Sys) (sp : SpecSt), Rel m sp → MInv m → Live ord m hist →
+    histOkFrom ord m hist = true →
+    ∃ sp', (∀ tail, specRun sp ((modelOps m hist).2 ++ tail) = specRun sp' tail) ∧
+      Rel (modelOps m hist).1 sp' ∧ MInv (modelOps m hist).1 ∧ Live ord (modelOps m hist).1 []
+  | [], m, sp, hR, hI, hL, _ => ⟨sp, fun _ => rfl, hR, hI, hL⟩
+  | op :: rest, m, sp, hR, hI, hL, hok => by
+    simp only [histOkFrom, Bool.and_eq_true] at hok
+    obtain ⟨sp1, hrun1, hR1, hI1, hL1⟩ := step_ok ord m sp op rest hR hI hL hok.1
+    obtain ⟨sp2, hrun2, hR2, hI2, hL2⟩ := run_ok ord rest (sysStep m op).1 sp1 hR1 hI1 hL1 hok.2
+    rw [modelOps_cons]
+    refine ⟨sp2, ?_, hR2, hI2, hL2⟩
+    intro tail
+    simp only [List.append_assoc]
+    rw [hrun1, hrun2]
+
+theorem KillKind.real_name (k : KillKind) (h : k.real = true) : k.name ≠ "" := by
+  cases k <;> simp [KillKind.name, KillKind.real] at h ⊢
+
+/-- the end-of-case clauses hold in the model once the scenario has been played to its end -/
+theorem final_core (ord) (m : Sys) (sp : SpecSt) (hR : Rel m sp) (hg : sp.got = m.got) (hp : sp.psent = m.psent)
+    (hI : MInv m) (hL : Live ord m []) : specFinal sp = none := by
+  obtain ⟨ep, hep, he1, he2, he3, he4⟩ := hR.ep
+  obtain ⟨lost, hs, hl⟩ := hI.stream
+  have hord : m.ord = ord := by
+    have := hL.ordEq
+    cases h : m.ord <;> simpa [ordOr, firstAfter, h] using this
+  have hpre : m.got <+: m.ppay := by
+    refine ⟨dataOf m.x.w.recvs ++ lost ++ m.ppay.drop m.psent, ?_⟩
+    have := List.take_append_drop m.psent m.ppay
+    rw [hs] at this
+    simpa [List.append_assoc] using this
+  have hlen : m.got.length ≤ m.psent := by
+    have := congrArg List.length hs
+    simp only [List.length_take, List.length_append] at this
+    omega
+  simp only [specFinal, hep, hg, hp, hR.spay, List.isPrefixOf_iff_prefix.mpr hpre, not_true_eq_false, if_false]
+  rw [if_neg (by omega)]
+  rw [hR.kill]
+  cases hk : m.killed with
+  | none => rfl
+  | some kp =>
+    obtain ⟨kind, pread⟩ := kp
+    have hks : m.killed.isSome = true := by rw [hk]; rfl
+    have hreal := hI.kreal kind pread hk
+    simp only [if_neg (KillKind.real_name kind hreal)]
+    -- the reporting clause
+    have hrep : reportClause sp ep kind ((sp.order.map (·.1)).getD []) ((sp.order.map (·.2)).getD 0) = none := by
+      rw [hR.ord, hord]
+      unfold reportClause
+      cases ha : m.async with
+      | true =>
+        rw [he1, ha]
+        simp only [if_true]
+        have h1 : ¬ (ep.discSeen ≠ 1 ∧ ordList ord ≠ []) := by
+          intro ⟨hne, ho⟩
+          apply hne
+          rw [he4]
+          cases hreg : m.x.a.registered with
+          | true =>
+            have := (hL.steps ha hks hreg ho).2
+            simp [liveSteps] at this
+          | false => exact hI.areg.mpr hreg
+        have h2 : ¬ (sp.destroyed = true ∧ sp.enqs.length ≠ sp.futs) := by
+          intro ⟨hd, hne⟩
+          apply hne
+          have hd' : m.destroyed = true := by rw [← hR.destroyed]; exact hd
+          have := hR.futs
+          rw [hd'] at this
+          rw [this, hR.enqs]; simp
+        show (if ep.discSeen ≠ 1 ∧ ordList ord ≠ [] then _ else if sp.destroyed = true ∧ sp.enqs.length ≠ sp.futs then _ else none) = none
+        rw [if_neg h1, if_neg h2]
+      | false =>
+        rw [he1, ha]
+        simp only [Bool.false_eq_true, if_false]
+        have hth : (ordList ord).contains .r = true → sp.threwAfterKill = true := by
+          intro hr
+          cases hrt : m.rthrew with
+          | true => exact hR.threw (hI.rthrew hrt).2.2
+          | false =>
+            have := hL.recvs ha hks hrt hr
+            simp [recvOps] at this
+        have h1 : ¬ ((ordList ord).contains .r = true ∧ ¬ sp.threwAfterKill = true) := fun ⟨a, b⟩ => b (hth a)
+        have h2 : ¬ ((ordList ord).contains .s = true ∧ kind ≠ .shutwr ∧ ordBig ord ≥ 1000000 ∧ ¬ sp.threwAfterKill = true) := by
+          intro ⟨a, b, c, d⟩
+          apply d
+          cases hr : (ordList ord).contains .r with
+          | true => exact hth hr
+          | false =>
+            cases ht : m.threw with
+            | true => exact hR.threw ht
+            | false =>
+              have hn : needSend ord kind = true := by
+                simp only [needSend, Bool.and_eq_true, bne_iff_ne, ne_eq, decide_eq_true_eq]
+                exact ⟨⟨a, b⟩, c⟩
+              have := hL.sends ha kind pread hk ht hn hr
+              simp [sendOps] at this
+        show (if (ordList ord).contains .r = true ∧ ¬ sp.threwAfterKill = true then _
+              else if (ordList ord).contains .s = true ∧ kind ≠ .shutwr ∧ ordBig ord ≥ 1000000 ∧ ¬ sp.threwAfterKill = true then _ else none) = none
+        rw [if_neg h1, if_neg h2]
+    rw [hrep]
+    -- the complete stream for an orderly close
+    simp only
+    unfold orderlyClause
+    have hcomplete : (kind = .shutwr ∨ (kind = .close ∧ pread ≥ sp.xsentAtKill.getD 0)) →
+        (ep.async = true ∨ ((sp.order.map (·.1)).getD []).head? = some .r) → (sp.order.map (·.1)).getD [] ≠ [] →
+        sp.got.length = sp.psent := by
+      intro hO hF hne
+      rw [hR.ord, hord] at hF hne
+      rw [hR.pre] at hO
+      have hnl : m.lossy = false := by
+        cases hlo : m.lossy with
+        | false => rfl
+        | true =>
+          obtain ⟨k, p, hkk, hno⟩ := hI.lossyK hlo
+          rw [hk] at hkk
+          cases hkk
+          simp only [orderly, Bool.or_eq_true, decide_eq_true_eq, Bool.and_eq_true] at hno
+          exact absurd hO (by simpa [orderly] using hno)
+      have hrec0 : m.x.w.recvs = [] := by
+        cases ha : m.async with
+        | true =>
+          cases hreg : m.x.a.registered with
+          | true =>
+            have := (hL.steps ha hks hreg hne).2
+            simp [liveSteps] at this
+          | false => exact (hI.unreg hreg).2
+        | false =>
+          rw [he1, ha] at hF
+          have hr : (ordList ord).contains .r = true := by
+            rcases hF with hF | hF
+            · cases hF
+            · have : ordList ord = ((ord.map (·.1)).getD []) := rfl
+              rw [this]
+              cases hol : (ord.map (·.1)).getD [] with
+              | nil => rw [hol] at hF; cases hF
+              | cons x xs =>
+                rw [hol] at hF
+                simp only [List.head?_cons, Option.some.injEq] at hF
+                subst hF
+                simp
+          cases hrt : m.rthrew with
+          | true => exact (hI.rthrew hrt).2.1
+          | false =>
+            have := hL.recvs ha hks hrt hr
+            simp [recvOps] at this
+      have hl0 := hl hnl
+      rw [hrec0, hl0] at hs
+      have := congrArg List.length hs
+      simp only [List.length_take, dataOf, List.append_nil, List.length_append, List.length_nil] at this
+      have := hI.psent
+      rw [hg, hp]
+      omega
+    simp only
+    rw [if_neg]
+    intro hcond
+    exact absurd (hcomplete hcond.1 hcond.2.1 hcond.2.2.1) hcond.2.2.2
+
+
+theorem final_ok (ord) (m : Sys) (sp : SpecSt) (hR : Rel m sp) (hI : MInv m) (hL : Live ord m []) :
+    ∃ s, specRun sp (finalObs m) = .ok s ∧ specFinal s = none := by
+  refine ⟨{ sp with got := m.got, psent := m.psent }, by simp [finalObs, specRun, specStep], ?_⟩
+  exact final_core ord m _ ⟨hR.ep, hR.spay, hR.kill, hR.pre, hR.ord, hR.threw, hR.destroyed, hR.enqs, hR.live, hR.futs⟩ rfl rfl hI hL
+
 end SockModel.PeerFail.Spec
